@@ -735,11 +735,42 @@ def handler_class(mod, M):
     return _SMALL[key]
 
 
-def run_do_post(mod, cfg, body, clen, caps, disp, M=None):
+class _NoPool(object):
+    def enqueue(self, *a, **k):
+        raise AssertionError("no request is queued in this stream")
+
+    def stop(self):
+        pass
+
+
+def real_server(mod, host, cfg, disp):
+    """a real server object of the library (never bound to a port) whose dispatch entry point is the scripted one: what
+    do_POST reads from `self.server` (the configuration above all) is what the constructor really stored there"""
+    kw = dict(logRequests=False, bind_and_activate=False, config=cfg)
+    if host == "pooled":
+        srv = mod.PooledJSONRPCServer(("127.0.0.1", 0), thread_pool=_NoPool(), **kw)
+    else:
+        srv = mod.SimpleJSONRPCServer(("127.0.0.1", 0), **kw)
+    fake = FakeServer(cfg, disp)
+    srv._marshaled_dispatch = fake._marshaled_dispatch
+    srv.seen = fake.seen
+    return srv
+
+
+def run_do_post(mod, cfg, body, clen, caps, disp, M=None, host=None):
     import http.client
     H = handler_class(mod, M)
     h = H.__new__(H)
-    srv = FakeServer(cfg, disp)
+    srv = FakeServer(cfg, disp) if not host else real_server(mod, host, cfg, disp)
+    try:
+        return _run_do_post(h, srv, body, clen, caps)
+    finally:
+        if host:
+            srv.server_close()
+
+
+def _run_do_post(h, srv, body, clen, caps):
+    import http.client
     h.server = srv
     h.headers = http.client.parse_headers(io.BytesIO(b"Content-Length: %d\r\n\r\n" % clen))
     h.path = "/"
@@ -778,11 +809,12 @@ class Server(pipeline.Stream):
     def gen(self, tier, rng):
         cases = []
 
-        def add(body, caps, clen=None, ct=CTYPES[0], disp=("text", '{"jsonrpc": "2.0", "result": "é", "id": 1}'), M=None):
+        def add(body, caps, clen=None, ct=CTYPES[0], disp=("text", '{"jsonrpc": "2.0", "result": "é", "id": 1}'), M=None, host=None):
             b = body if isinstance(body, bytes) else body.encode()
             if M is not None and handler_class(self.M, M) is None:
                 return
-            cases.append({"body": b, "clen": len(b) if clen is None else clen, "caps": list(caps), "ct": ct, "disp": disp, "M": M})
+            cases.append({"body": b, "clen": len(b) if clen is None else clen, "caps": list(caps), "ct": ct, "disp": disp, "M": M,
+                          "host": host})
         # the real loop with the chunk-size constant replaced by a small one: every body x chunk size
         for t in SERVER_BODIES:
             for M in (1, 2, 3, 4, 5, 8):
@@ -804,6 +836,9 @@ class Server(pipeline.Stream):
         for ct in CTYPES:
             for disp in [("text", ""), ("text", "{}"), ("text", "é€\U0001f600"), ("text", "r" * 300 + "é"), ("none",), ("raise",)]:
                 add(SERVER_BODIES[2], [5], ct=ct, disp=disp)
+                # the same behind the library's real server objects (plain and thread-pooled) built with this configuration
+                add(SERVER_BODIES[2], [5], ct=ct, disp=disp, host="simple")
+                add(SERVER_BODIES[2], [], ct=ct, disp=disp, host="pooled")
         # bodies that are not UTF-8, declared lengths shorter / longer than the stream, end of file in the middle
         add(b"ab\xc3", [])
         add(b"\xc3(", [1])
@@ -831,7 +866,8 @@ class Server(pipeline.Stream):
     def run_impl(self, case):
         cfg = self.C.Config(content_type=case["ct"])
         try:
-            seen, status, ct, cl, rbody = run_do_post(self.M, cfg, case["body"], case["clen"], case["caps"], case["disp"], case.get("M"))
+            seen, status, ct, cl, rbody = run_do_post(self.M, cfg, case["body"], case["clen"], case["caps"], case["disp"], case.get("M"),
+                                                      case.get("host"))
         except Exception as ex:   # noqa
             return ("raise", exc_name(ex))
         return ("reply", seen, status, ct, cl, rbody)
@@ -904,7 +940,8 @@ class Server(pipeline.Stream):
     def kind(self, case, obs):
         if obs[0] != "reply":
             return "raise"
-        return "%s%s / dispatcher %s / status %d" % ("small chunk constant / " if case.get("M") else "",
+        return "%s%s%s / dispatcher %s / status %d" % ("%s server object / " % case["host"] if case.get("host") else "",
+                                                       "small chunk constant / " if case.get("M") else "",
                                                      "a read splits a character" if self._splits_char(case) else
                                                      "short reads" if case["caps"] else "full reads", case["disp"][0], obs[2])
 
@@ -918,11 +955,11 @@ class Server(pipeline.Stream):
 
     def to_replay(self, case):
         return {"body": case["body"].hex(), "clen": case["clen"], "caps": case["caps"], "ct": case["ct"], "disp": list(case["disp"]),
-                "M": case.get("M")}
+                "M": case.get("M"), "host": case.get("host")}
 
     def from_replay(self, j):
         return {"body": bytes.fromhex(j["body"]), "clen": j["clen"], "caps": j["caps"], "ct": j["ct"], "disp": tuple(j["disp"]),
-                "M": j.get("M")}
+                "M": j.get("M"), "host": j.get("host")}
 
     def shrink(self, case):
         if case["disp"] != ("text", "{}"):
